@@ -30,7 +30,11 @@ def same_core(ctx, cr):
         if not f:
             ctx.lost(rule, "%s:%s" % (rule, k), "function missing")
             continue
-        called = set(t["fn"].get("key", "") for bi, t in M.iter_calls(f))
+        # the reporter's unit: the function, its closures and the private helpers of its module it calls (a per-input step split off
+        # into a helper is still the reporter's code)
+        called = set()
+        for uk in flow.unit_functions(cr, k, ("commands::reporters::test::",)):
+            called |= set(t["fn"].get("key", "") for bi, t in M.iter_calls(cr.fns[uk]))
         need = {"rules::eval_context::root_scope": "fresh root scope", "rules::eval::eval_rules_file": "the validate evaluation core",
                 GBR: "grouping by rule name", GSR: "expectation matching"}
         for callee, why in need.items():
